@@ -15,6 +15,35 @@ import random
 import dynetx as dn
 
 NODES = (1, 2, 3)
+
+_builtin_sorted = sorted
+
+
+def sorted(x, key=None, reverse=False):      # noqa: A001  (deliberate shadow, imported by the parts)
+    """sorted() that also orders values of mixed types (node ids may be ints, strings and tuples at once): falls back to
+    ordering by repr; used on both sides of every comparison"""
+    x = list(x)
+    try:
+        return _builtin_sorted(x, key=key, reverse=reverse)
+    except TypeError:
+        return _builtin_sorted(x, key=(repr if key is None else (lambda z: repr(key(z)))), reverse=reverse)
+
+
+# legal but unusual node ids: mixed types in one graph, an id that is another id followed by digits, tuples
+RELABELLINGS = ({1: 'a', 2: 'x1', 3: 11}, {1: 1, 2: 11, 3: 'A1'}, {1: 'A', 2: 'A1', 3: 'A11'})   # (tuple ids would not survive the JSON replay records)
+
+
+def relabel(h, m):
+    f = lambda n: m.get(n, n)
+    out = []
+    for c in h:
+        if c[0] == 'add':
+            out.append(('add', f(c[1]), f(c[2]), c[3], c[4]))
+        elif c[0] == 'from':
+            out.append(('from', tuple((f(a), f(b)) for a, b in c[1]), c[2], c[3]))
+        else:
+            out.append((c[0], tuple(f(n) for n in c[1]), c[2]))
+    return out
 T_LO, T_HI = 0, 4            # instants used by generated calls; queries look at T_LO-1 .. T_HI+2
 
 
@@ -192,9 +221,10 @@ def call_alphabet(pairs=None, t_lo=T_LO, t_hi=T_HI, max_len=3):
 
 
 def histories(tier, seed, classes=('DynGraph', 'DynDiGraph'), modes=(True,), extra_calls=(), n_random=None,
-              max_len=3, pairs=None):
-    """round-robin over the classes/modes (so that a budgeted consumer sees all of them)"""
-    gens = [_histories(tier, seed, (c,), (m,), extra_calls, n_random, max_len, pairs) for c in classes for m in modes]
+              max_len=3, pairs=None, odd_ids=False):
+    """round-robin over the classes/modes (so that a budgeted consumer sees all of them); odd_ids adds histories whose node
+    ids are of mixed types / prefixes of one another (RELABELLINGS)"""
+    gens = [_histories(tier, seed, (c,), (m,), extra_calls, n_random, max_len, pairs, odd_ids) for c in classes for m in modes]
     _end = object()
     for tup in itertools.zip_longest(*gens, fillvalue=_end):
         for x in tup:
@@ -202,7 +232,7 @@ def histories(tier, seed, classes=('DynGraph', 'DynDiGraph'), modes=(True,), ext
                 yield x
 
 
-def _histories(tier, seed, classes, modes, extra_calls, n_random, max_len, pairs):
+def _histories(tier, seed, classes, modes, extra_calls, n_random, max_len, pairs, odd_ids=False):
     """yield (cls, removal, history).  Exhaustive for length <= 2 over the call alphabet, seeded random
     samples of length 3..max_len+1 beyond; plus a fixed list of structured histories that the property texts
     single out (re-adds, containment, adjacency, reversed endpoint order, shared instants, self-loops)."""
@@ -250,6 +280,8 @@ def _histories(tier, seed, classes, modes, extra_calls, n_random, max_len, pairs
             for h in structured[:11]:
                 yield cls, removal, shift(h, -3)       # runs that start below and end at / around instant 0
                 yield cls, removal, shift(h, 1000)
+            for i_, h in enumerate(structured if odd_ids else ()):
+                yield cls, removal, relabel(h, RELABELLINGS[i_ % len(RELABELLINGS)])
             for c in alpha:
                 yield cls, removal, [c]
             for h in itertools.product(small, repeat=2):
@@ -262,6 +294,8 @@ def _histories(tier, seed, classes, modes, extra_calls, n_random, max_len, pairs
             for k in range(n_random):
                 n = rng.randint(3, max_len + 1)
                 h = [rng.choice(alpha) for _ in range(n)]
+                if odd_ids and k % 7 == 3:
+                    h = relabel(h, RELABELLINGS[k % len(RELABELLINGS)])
                 yield cls, removal, (shift(h, -3) if k % 5 == 0 else h)
 
 
